@@ -288,6 +288,10 @@ func (vt *Model) update(seq ansi.Sequence) {
 			buf.Write([]byte{0x1B, '\\'})
 			// Decode the sixel
 			log.Info("SIXEL %d", buf.Len())
+			if !sixelFits(seq.Data, maxSixelSize) {
+				log.Error("[term] sixel image too large or malformed")
+				return
+			}
 			dec := sixel.NewDecoder(buf)
 			img := &Image{}
 			img.origin.row = int(vt.cursor.row)
